@@ -401,6 +401,33 @@ pub fn gen_plan(rng: &mut Rng, focus: &str, thorough: bool) -> WirePlan {
             key: "sim-secret-key".into(),
             grants,
         });
+        // siblings whose name merely *starts with* a granted literal (a → ab, b → b2): segments
+        // are compared as wholes, not as text
+        if rng.chance(1, 2) {
+            for cp in clients.iter_mut() {
+                for op in cp.ops.iter_mut() {
+                    if let Op::Req(v) = op {
+                        if !rng.chance(1, 4) {
+                            continue;
+                        }
+                        if let Some(body) = v.as_object_mut().and_then(|o| o.values_mut().next()).and_then(|b| b.as_object_mut()) {
+                            for f in ["key", "requestPattern", "parent", "parentPattern"] {
+                                if let Some(Value::String(k)) = body.get_mut(f) {
+                                    let mut segs: Vec<String> = k.split('/').map(|x| x.to_owned()).collect();
+                                    let i = rng.below(segs.len() as u64) as usize;
+                                    match segs[i].as_str() {
+                                        "a" => segs[i] = "ab".into(),
+                                        "b" => segs[i] = "b2".into(),
+                                        _ => {}
+                                    }
+                                    *k = segs.join("/");
+                                }
+                            }
+                        }
+                    }
+                }
+            }
+        }
     }
     if focus == "C16" {
         // client 0: the subscriber (plain + aggregated twin on the same pattern, set up before any
@@ -445,6 +472,17 @@ pub fn gen_plan(rng: &mut Rng, focus: &str, thorough: bool) -> WirePlan {
                 tame(op, rng);
                 if let Op::Sleep(us) = op {
                     *us = *rng.pick(&[500u64, 5_000, 50_000, 500_000, 1_500_000]);
+                }
+            }
+            // heartbeat-style traffic: the same value written to the same key again and again
+            if rng.chance(1, 2) {
+                let hb_key = rng.pick(&["a/hb", "b/a", "a/a"]).to_string();
+                for op in w.ops.iter_mut() {
+                    if let Op::Req(v) = op {
+                        if v.get("set").is_some() && rng.chance(1, 3) {
+                            *v = json!({"set": {"key": hb_key, "value": "alive"}});
+                        }
+                    }
                 }
             }
             w.start_delay_us = 2_000_000 + rng.range(0, 50_000);
